@@ -185,6 +185,8 @@ class Budget(Exception):
 def canonical_renaming(term, max_leaves=3000):
     """returns (sigma dict old->new for summed indices, n_leaves); raises Budget"""
     coef, objs, contr = term
+    # a delta between identical indices is 1 (dropped by the Lean normaliser): it must not influence the names
+    objs = tuple(o for o in objs if not (o[0] == "D" and o[1] == o[2]))
     contr = list(contr)
     all_idx = set(contr)
     for o in objs:
